@@ -97,6 +97,10 @@ Definition sort_ev (l : list (Z * nat)) : list (Z * nat) := fold_right insert_ev
 Definition completion_order (w : nat) (delays : list Z) : list nat :=
   map snd (sort_ev (finish_times (repeat 0 w) delays O)).
 
+(* decidable test used on OBSERVED completion orders: l is a permutation of 0..n-1 *)
+Definition is_perm_of_seq (l : list nat) (n : nat) : bool :=
+  Nat.eqb (length l) n && forallb (fun i => existsb (Nat.eqb i) l) (seq 0 n).
+
 (* ------------------------------------------------------------------------------------------ *)
 (* the state record                                                                           *)
 (* ------------------------------------------------------------------------------------------ *)
